@@ -34,7 +34,7 @@ func anchoredOr(c *RunCtx, funcs []string) []string {
 }
 
 var dispatchFuncs = []string{"processNextJob", "sendToNextChannel", "freePoolNode", "initPoolNode", "goEventLoop", "goRemoveIdleWorkers", "notifyToPullNextJobs",
-	"releaseWaiters", "TunePool", "stopAndRemoveAllWorkers", "Restart", "Stop", "Pause", "Resume", "start", "closeChannels",
+	"releaseWaiters", "sendError", "TunePool", "stopAndRemoveAllWorkers", "Restart", "Stop", "Pause", "Resume", "start", "closeChannels",
 	"queue.Add", "Queue.Add", "AddAll", "Enqueue", "Dequeue", "Purge", "PopBack", "PushNode", "Remove", "Node.Serve", "Node.Send", "Node.Stop", "Close", "markClosed", "changeStatus"}
 
 func runC01(c *RunCtx) {
@@ -49,17 +49,33 @@ func runC03(c *RunCtx) {
 		ExploreOpts{Base: 3, K: c.Q(2, 4), Funcs: anchoredOr(c, dispatchFuncs), Pairs: c.Q(20, 120), MaxCases: c.Q(200, 4000)})
 	gatePrograms(c, "gate", 32, 160, gateBias{Adapters: true, MaxOps: 12, Expiry: 30, Tune: true, Life: true}, gateOpts(c))
 	reaperPrograms(c, 32, 160)
+	notifyPrograms(c, 40, 200)
+	stormPrograms(c, 32, 160)
 }
 
 func runC05(c *RunCtx) {
 	richPrograms(c, "rich", 48, 240, richBias{MaxJobs: 6, Cancel: 30, Purge: 20, Script: 2, Batches: 30, Waiters: 3, Outcomes: true, Expiry: 10},
 		ExploreOpts{Base: 3, K: c.Q(2, 4), Funcs: anchoredOr(c, append([]string{"Wait", "Response", "Send", "Drain", "WgCounter"}, dispatchFuncs...)), Pairs: c.Q(20, 120), MaxCases: c.Q(200, 4000)})
+	batchPrograms(c, 96, 600)
+}
+
+func batchPrograms(c *RunCtx, nq, nt int) {
+	for v := 0; v < c.Q(nq, nt); v++ {
+		c.Program(fmt.Sprintf("batch/%d", v), func(p *Prog) {
+			cfg := drawBatch(p.Rng, false)
+			p.Explore(func(pl Plan) *Result { return epBatch(c, cfg) },
+				ExploreOpts{Base: 4, K: c.Q(2, 4), Funcs: anchoredOr(c, batchFuncs), Pairs: c.Q(15, 100), MaxCases: c.Q(120, 2500)})
+		})
+	}
 }
 
 func runC09(c *RunCtx) {
 	richPrograms(c, "rich", 48, 240, richBias{MaxJobs: 8, Cancel: 5, Purge: 0, Script: 6, Batches: 10, Waiters: 0, Expiry: 10, PausesOnly: true},
 		ExploreOpts{Base: 3, K: c.Q(2, 4), Funcs: anchoredOr(c, dispatchFuncs), Pairs: c.Q(20, 120), MaxCases: c.Q(200, 4000)})
+	runC09Extra(c)
 }
+
+func runC09Extra(c *RunCtx) { notifyPrograms(c, 40, 200) }
 
 func runC10(c *RunCtx) {
 	richPrograms(c, "rich", 48, 240, richBias{MaxJobs: 8, Cancel: 60, Purge: 40, Script: 2, Batches: 20, Waiters: 1, Expiry: 10},
@@ -67,7 +83,7 @@ func runC10(c *RunCtx) {
 }
 
 func runC16(c *RunCtx) {
-	richPrograms(c, "rich", 48, 240, richBias{MaxJobs: 6, Cancel: 25, Purge: 10, Script: 2, Batches: 0, Waiters: 1, Samplers: true, Expiry: 10},
+	richPrograms(c, "rich", 48, 240, richBias{MaxJobs: 6, Cancel: 25, Purge: 10, Script: 2, Batches: 0, Waiters: 3, Samplers: true, Expiry: 10},
 		ExploreOpts{Base: 3, K: c.Q(2, 4), Funcs: anchoredOr(c, dispatchFuncs), Pairs: c.Q(20, 120), MaxCases: c.Q(200, 4000)})
 }
 
@@ -78,6 +94,12 @@ func runC17(c *RunCtx) {
 		ExploreOpts{Base: 3, K: c.Q(3, 6), Funcs: anchoredOr(c, []string{"goEventLoop", "processNextJob", "Restart", "Stop", "start", "closeChannels"}), Pairs: c.Q(30, 150), MaxCases: c.Q(200, 3000)})
 	gatePrograms(c, "gate", 32, 160, gateBias{Adapters: true, MaxOps: 12, Expiry: 10, Tune: true, Life: true}, gateOpts(c))
 	lenPrograms(c, 16, 64)
+	for v := 0; v < c.Q(32, 200); v++ {
+		c.Program(fmt.Sprintf("ack/%d", v), func(p *Prog) {
+			cfg := drawAck(p.Rng)
+			p.Explore(func(pl Plan) *Result { return epAck(c, cfg) }, ExploreOpts{Base: 2, K: 1, Funcs: ledgerFuncs, MaxCases: c.Q(20, 200)})
+		})
+	}
 }
 
 func runC01Burst(c *RunCtx) { burstPrograms(c, 12, 48) }
